@@ -215,7 +215,9 @@ func layer2Case(env *vlib.Env, idx int, rep *vlib.Reporter) {
 				b = []byte{}
 			}
 			// only if no row is there yet (primary key)
-			if err := q.InsertDecryptionKeyShare(ctx, database.InsertDecryptionKeyShareParams{Eon: eon, EpochID: idI, KeyperIndex: int64(s.sender), DecryptionKeyShare: b}); err != nil {
+			// (plain SQL, not the repository's generated query: the row is put there behind the code's back)
+			if _, err := node.Pool.Exec(ctx, "INSERT INTO decryption_key_share (eon, epoch_id, keyper_index, decryption_key_share) VALUES ($1, $2, $3, $4) ON CONFLICT DO NOTHING",
+				eon, idI, int64(s.sender), b); err != nil {
 				rep.Inconclusive("poison insert: " + err.Error())
 				return
 			}
@@ -284,6 +286,28 @@ func layer2Case(env *vlib.Env, idx int, rep *vlib.Reporter) {
 				return
 			}
 			rep.Obs("l2_invalid_rejected", 1)
+		}
+		// every share of an accepted and handled message is held afterwards: its row, or the row that
+		// was there before for that keyper and identity
+		if eff.kind == 'V' && d.Result == pubsub.ValidationAccept && d.HandleErr == nil {
+			list := [][]byte{idI}
+			if eff.ids == 2 {
+				list = ids
+			}
+			for _, id := range list {
+				found := false
+				for _, row := range node.DBNode.DB.Snapshot().Rows("decryption_key_share") {
+					if row["eon"].(int64) == eon && bytes.Equal(row["epoch_id"].([]byte), id) && int(row["keyper_index"].(int64)) == eff.sender {
+						found = true
+					}
+				}
+				if !found {
+					det["identity"] = string(id)
+					rep.Violationf("l2:accepted-share-not-stored", det, "%s: the message was accepted and handled, but no share row of keyper %d for %q is held", label, eff.sender, id)
+					return
+				}
+			}
+			rep.Obs("l2_accepted_messages_with_all_rows_held", 1)
 		}
 		if !checkKeys(label) {
 			return
